@@ -314,3 +314,306 @@ int main (void) {
 PIN_EXPECT = {   # name: (c2m as documented in design/C07.md, gcc)
     'enum-nonneg-type': (6, 7), 'enum-nonneg-minus1-lt0': (1, 0), 'enum-nonneg-size': (4, 4),
     'enum-neg-type': (6, 6), 'enum-big-type': (7, 7), 'enum-constant-type': (6, 6)}
+
+
+# ------------------------------------------------------------------ floating and mixed value probes (round 3)
+# A floating operand value is a string <+|-><hex mantissa>p<decimal exponent> (exactly representable in its type);
+# cases: ('fbin', op, ta, va, tb, vb) | ('fun', op, ta, va) | ('fcast', t, ta, va) |
+#        ('fcond', tc, vc, ta, va, tb, vb) | ('fland'|'flor', ta, va, tb, vb); integer operands as in the integer cases.
+FP_TYPES = ['float', 'double', 'ldouble']
+FMT = {'float': (24, 128), 'double': (53, 1024), 'ldouble': (64, 16384)}
+FSUF = {'float': 'f', 'double': '', 'ldouble': 'L'}
+FSIZE = {'float': 4, 'double': 8, 'ldouble': 10}
+FBINOPS = ['+', '-', '*', '/', '==', '!=', '<', '<=', '>', '>=']
+
+
+def is_fp(t):
+    return t in FMT
+
+
+def fp_ok(t, m, e):
+    prec, emax = FMT[t]
+    emin = 3 - emax - prec
+    while m and m % 2 == 0:
+        m //= 2
+        e += 1
+    return m == 0 or (m.bit_length() <= prec and e >= emin and m.bit_length() + e <= emax)
+
+
+def fp_str(neg, m, e):
+    return '%s%xp%d' % ('-' if neg else '+', m, e)
+
+
+def fp_parse(s):
+    m, e = s[1:].split('p')
+    return s[0] == '-', int(m, 16), int(e)
+
+
+def fp_boundary(t):
+    prec, emax = FMT[t]
+    emin = 3 - emax - prec
+    vs = [(0, 0), (1, 0), (2, 0), (3, 0), (1, -1), (5, -1), (3, -2), (3, -1), (7, 0), (255, -1), (511, -1), (127, 0), (128, 0),
+          (255, 0), (256, 0), (32767, 0), (32768, 0), (65535, 0), (65536, 0), (65535, -1), (1, 24), ((1 << 24) + 1, 0), ((1 << 24) - 1, 0),
+          ((1 << 25) + 1, 0), ((1 << 24) + 3, 0), (1, 31), ((1 << 31) - 1, 0), ((1 << 32) - 1, 0), (1, 32), ((1 << 32) + 1, 0),
+          ((1 << 31) + 1, -1), ((1 << 32) - 1, -1), (1, 53), ((1 << 53) + 1, 0), ((1 << 53) - 1, 0), ((1 << 54) + 1, 0), (1, 63),
+          ((1 << 63) - 1, 0), ((1 << 63) + 1, 0), (1, 64), ((1 << 64) - 1, 0), ((1 << 64) - 1, -1), ((1 << 63) - 1, -1), (1, 65),
+          ((1 << prec) - 1, 0), (1, prec), ((1 << prec) - 1, emax - prec), (1, emin + prec - 1), (1, emin), (3, emin), ((1 << prec) - 1, emin),
+          ((1 << 24) - 1, 104), (1, -24), ((1 << 53) + 1, -105), ((1 << 52) + 1, -105), ((1 << 23) + 1, -47), (1, -53), (1, -64), (1, 127),
+          (0xcccccd, -27), (0x1999999999999a, -56), (10, 0), (100, 0), (1000000, 0), (1, 100), (1, -100)]
+    vs = [(m, e) for m, e in vs if fp_ok(t, m, e)]
+    return sorted(set(vs))
+
+
+def pick_fp(rng, t):
+    prec, emax = FMT[t]
+    if rng.random() < 0.75:
+        m, e = rng.choice(fp_boundary(t))
+    else:
+        m = rng.getrandbits(rng.choice([3, 8, 24, 25, prec, prec])) | (1 if rng.random() < 0.5 else 0)
+        e = rng.choice([0, 0, -1, -3, -prec, -prec + 1, 1, 5, 31 - prec, 32 - prec, 63 - prec, 64 - prec, rng.randint(-80, 80)])
+        if not fp_ok(t, m, e):
+            m, e = 3, -1
+    return fp_str(rng.random() < 0.3, m, e)
+
+
+def pick_fp_near(rng, tf, ti):
+    """a value of floating type tf next to a boundary of integer type ti: the conversion is defined iff the
+    truncated value is representable (C11 6.3.1.4), so both sides of tmin-1, tmin, tmax, tmax+1 and the sign bit of
+    the 64-bit types (conversions to unsigned types have no MIR insn of their own)"""
+    prec = FMT[tf][0]
+    w = WIDTH[ti]
+    base = rng.choice([1 << (w - 1), 1 << w, (1 << (w - 1)) - 1, (1 << w) - 1, 1, 0, (1 << w) - (1 << max(0, w - prec))])
+    neg = SIGNED[ti] and rng.random() < 0.4 or rng.random() < 0.1
+    # the nearest representable numbers around base: base itself rounded down to prec bits, +- one ulp, +- a fraction
+    bl = base.bit_length()
+    sh = max(0, bl - prec)
+    m, e = base >> sh, sh
+    k = rng.choice([0, 0, 1, -1, 2, 'half', 'tiny'])
+    if k == 'half' and fp_ok(tf, 2 * m + 1, e - 1) and m.bit_length() < prec:
+        m, e = 2 * m + 1, e - 1
+    elif k == 'tiny' and m.bit_length() + 8 <= prec:
+        m, e = (m << 8) + rng.choice([1, 255]), e - 8
+    elif isinstance(k, int) and m + k > 0:
+        m += k
+    if not fp_ok(tf, m, e):
+        return pick_fp(rng, tf)
+    return fp_str(neg, m, e)
+
+
+def is_f2u64_big(c):
+    """run-time conversion of a floating value >= 2^63 to a 64-bit unsigned type (fixes/C07-17.patch)"""
+    if c[0] != 'fcast' or c[1] not in ('ulong', 'ullong') or not is_fp(c[2]):
+        return False
+    neg, m, e = fp_parse(c[3])
+    return not neg and m.bit_length() + e > 63
+
+
+def pick_any(rng, t):
+    return pick_fp(rng, t) if is_fp(t) else pick(rng, t)
+
+
+def gen_fvalue_cases(rng, n):
+    out = []
+    for _ in range(n):
+        r = rng.random()
+        # at least one floating type among the operands / the target
+        ta = rng.choice(FP_TYPES if rng.random() < 0.6 else TYPES)
+        tb = rng.choice(TYPES if is_fp(ta) and rng.random() < 0.75 else FP_TYPES)
+        if rng.random() < 0.5:
+            ta, tb = tb, ta
+        va, vb = pick_any(rng, ta), pick_any(rng, tb)
+        if r < 0.42:
+            op = rng.choice(FBINOPS)
+            if op in ('+', '-') and rng.random() < 0.25 and is_fp(ta) and is_fp(tb):
+                # sums that are exact ties / just above a tie in the narrower format (rounding boundaries)
+                t = ta if FMT[ta][0] <= FMT[tb][0] else tb
+                prec = FMT[t][0]
+                va = fp_str(False, 1, 0)
+                vb = fp_str(rng.random() < 0.3, rng.choice([(1 << (prec - 1)) + 1, 1 << (prec - 1), (1 << (prec - 1)) + (1 << (prec - 12)), 3 << (prec - 2)]),
+                            -(2 * prec - 1))
+                if not (fp_ok(tb, *fp_parse(vb)[1:]) and fp_ok(ta, 1, 0)):
+                    va, vb = pick_any(rng, ta), pick_any(rng, tb)
+            out.append(('fbin', op, ta, va, tb, vb))
+        elif r < 0.50:
+            t = rng.choice(FP_TYPES)
+            out.append(('fun', rng.choice(['+', '-', '!']), t, pick_fp(rng, t)))
+        elif r < 0.72:
+            if rng.random() < 0.5:
+                t, s = rng.choice(FP_TYPES), rng.choice(TYPES)
+            else:
+                t, s = rng.choice(TYPES), rng.choice(FP_TYPES)
+            v = pick_any(rng, s)
+            if is_fp(s) and not is_fp(t) and t != 'bool' and rng.random() < 0.6:
+                v = pick_fp_near(rng, s, t)
+            out.append(('fcast', t, s, v))
+        elif r < 0.93:
+            # ?: with a constant condition: integer / floating mixes of the selected and the other part
+            tc = rng.choice(TYPES)
+            vc = pick_any(rng, tc) if rng.random() < 0.5 else (fp_str(False, rng.choice([0, 1]), 0) if is_fp(tc) else rng.choice([0, 1]))
+            out.append(('fcond', tc, vc, ta, va, tb, vb))
+        else:
+            out.append((rng.choice(['fland', 'flor']), ta, va, tb, vb))
+    return out
+
+
+def fq_val(t, v):
+    return v if is_fp(t) else hexs(v)
+
+
+def fquery(c):
+    k = c[0]
+    if k == 'fbin':
+        return 'fbin %s %s %s %s %s' % (c[1], c[2], fq_val(c[2], c[3]), c[4], fq_val(c[4], c[5]))
+    if k == 'fun':
+        return 'fun %s %s %s' % (c[1], c[2], fq_val(c[2], c[3]))
+    if k == 'fcast':
+        return 'fcast %s %s %s' % (c[1], c[2], fq_val(c[2], c[3]))
+    if k == 'fcond':
+        return 'fcond %s %s %s %s %s %s' % (c[1], fq_val(c[1], c[2]), c[3], fq_val(c[3], c[4]), c[5], fq_val(c[5], c[6]))
+    return '%s %s %s %s %s' % (k, c[1], fq_val(c[1], c[2]), c[3], fq_val(c[3], c[4]))
+
+
+def fp_lit(t, v):
+    neg, m, e = fp_parse(v)
+    s = '0x%xp%d%s' % (m, e, FSUF[t])
+    return '(-%s)' % s if neg else s
+
+
+def any_lit(t, v):
+    return fp_lit(t, v) if is_fp(t) else typed_lit(t, v)
+
+
+def strip_f(c):
+    """the case with the kind of the integer generator, for runtime_expr / operands"""
+    return (c[0][1:],) + tuple(c[1:])
+
+
+def fconst_expr(c):
+    k = c[0]
+    if k == 'fbin':
+        return '(%s %s %s)' % (any_lit(c[2], c[3]), c[1], any_lit(c[4], c[5]))
+    if k == 'fun':
+        return '(%s %s)' % (c[1], any_lit(c[2], c[3]))
+    if k == 'fcast':
+        return '((%s)%s)' % (CNAME[c[1]], any_lit(c[2], c[3]))
+    if k == 'fcond':
+        return '(%s ? %s : %s)' % (any_lit(c[1], c[2]), any_lit(c[3], c[4]), any_lit(c[5], c[6]))
+    return '(%s %s %s)' % (any_lit(c[1], c[2]), '&&' if k == 'fland' else '||', any_lit(c[3], c[4]))
+
+
+def parse_fmodel(s):
+    """model output `<type> <value>` -> (type, canonical value): int for integer types; for floating types the bit
+    pattern of the object (an int) or 'nan'.  None for err / undef."""
+    w = s.split()
+    if w[0] in ('err', 'undef'):
+        return None
+    t = w[0]
+    if not is_fp(t):
+        return (t, int(w[1], 16))
+    return (t, fp_bits(t, w[1]))
+
+
+def fp_bits(t, view):
+    prec, emax = FMT[t]
+    emin = 3 - emax - prec
+    ebits = {'float': 8, 'double': 11, 'ldouble': 15}[t]
+    fbits = prec - 1 if t != 'ldouble' else 64          # x87: explicit integer bit
+    p = view.split(':')
+    if p[0] == 'nan':
+        return 'nan'
+    s = int(p[1])
+    if p[0] == 'zero':
+        return s << (ebits + fbits)
+    if p[0] == 'inf':
+        return (s << (ebits + fbits)) | (((1 << ebits) - 1) << fbits) | ((1 << 63) if t == 'ldouble' else 0)
+    m, e = int(p[2], 16), int(p[3])
+    # canonical Flocq mantissa: either prec bits, or fewer with e = emin (subnormal)
+    if m.bit_length() == prec:
+        biased = e - emin + 1
+        frac = m if t == 'ldouble' else m - (1 << (prec - 1))
+    else:
+        assert e == emin, (t, view)
+        biased, frac = 0, m
+    return (s << (ebits + fbits)) | (biased << fbits) | frac
+
+
+def canon_bits(t, bits):
+    """bit pattern printed by the C side -> canonical (NaNs collapse)"""
+    if not is_fp(t):
+        return bits
+    prec = FMT[t][0]
+    ebits = {'float': 8, 'double': 11, 'ldouble': 15}[t]
+    fbits = prec - 1 if t != 'ldouble' else 64
+    ex = (bits >> fbits) & ((1 << ebits) - 1)
+    frac = bits & ((1 << fbits) - 1)
+    if t == 'ldouble':
+        frac &= (1 << 63) - 1
+    return 'nan' if ex == (1 << ebits) - 1 and frac != 0 else bits
+
+
+def bits_lit(t, bits):
+    """C constant expression with the value of the canonical result (for the == probes); None when not expressible"""
+    if not is_fp(t):
+        return typed_lit(t, bits if bits <= tmax(t) else bits - (1 << 64)) if SIGNED[t] else typed_lit(t, bits)
+    if bits == 'nan':
+        return None
+    prec, emax = FMT[t]
+    emin = 3 - emax - prec
+    ebits = {'float': 8, 'double': 11, 'ldouble': 15}[t]
+    fbits = prec - 1 if t != 'ldouble' else 64
+    s = bits >> (ebits + fbits)
+    ex = (bits >> fbits) & ((1 << ebits) - 1)
+    frac = bits & ((1 << fbits) - 1)
+    if ex == (1 << ebits) - 1:
+        return None
+    if ex == 0:
+        m, e = frac, emin
+    else:
+        m, e = (frac if t == 'ldouble' else frac | (1 << (prec - 1))), ex + emin - 1
+    return fp_lit(t, fp_str(s, m, e))
+
+
+def fvalue_unit(cases, expected, per_func=20):
+    """cases with expected[i] = (type, canonical value).  One line per case:
+         k <static initialiser> <== probe in a static initialiser> <enum/array-size probe> <automatic object initialised by the
+         constant expression> <run time, global operands> <run time, volatile locals>
+       values are the bytes of an object of the result type (most significant first)."""
+    s = ['#include <stdio.h>\ntypedef unsigned long long u64;\n'
+         'static void pb (const void *p, int n) { const unsigned char *b = p; for (int i = n - 1; i >= 0; i--) printf ("%02x", b[i]); putchar (\' \'); }\n']
+    meta = []
+    for k, c in enumerate(cases):
+        et, ev = expected[k]
+        ce = fconst_expr(c)
+        rt, n = (CNAME[et], FSIZE[et]) if is_fp(et) else ('u64', 8)
+        conv = '' if is_fp(et) else '(u64)'
+        lit = bits_lit(et, ev)
+        s.append('static const %s c%d = %s%s;\n' % (rt, k, conv, ce))
+        s.append('static const int p%d = %s;\n' % (k, '%s == %s' % (ce, lit) if lit else ('%s != %s' % (ce, ce) if ev == 'nan' else '1')))
+        # an integer constant expression proper: a cast of a floating constant to an integer type
+        ice = c[0] == 'fcast' and not is_fp(c[1]) and is_fp(c[2]) and not c[3].startswith('-') and lit
+        s.append('enum { e%d = %s };\nstatic char s%d[%s];\n' % ((k, '%s == %s ? 1 : 2' % (ce, lit), k, '%s == %s ? 1 : 2' % (ce, lit)) if ice
+                                                                     else (k, '1', k, '1')))
+        for nm, (t, v) in zip('xyz', operands(strip_f(c))):
+            s.append('%s g%s%d = %s;\n' % (CNAME[t], nm, k, any_lit(t, v)))
+        meta.append((rt, n, conv))
+    nf = 0
+    for off in range(0, len(cases), per_func):
+        s.append('static void f%d (void) {\n' % nf)
+        for k in range(off, min(off + per_func, len(cases))):
+            c = strip_f(cases[k])
+            rt, n, conv = meta[k]
+            gl = tuple('g%s%d' % (nm, k) for nm in 'xyz')
+            lo = tuple('l%s%d' % (nm, k) for nm in 'xyz')
+            for nm, (t, v) in zip('xyz', operands(c)):
+                s.append('  volatile %s l%s%d = %s;\n' % (CNAME[t], nm, k, any_lit(t, v)))
+            s.append('  { %s a = %s%s, g = %s%s, l = %s%s; int p = p%d, e = (int) e%d + (int) sizeof (s%d) - 1;\n'
+                     % (rt, conv, fconst_expr(cases[k]), conv, runtime_expr(c, gl), conv, runtime_expr(c, lo), k, k, k))
+            s.append('    printf ("%d "); pb (&c%d, %d); printf ("%%d %%d ", p, e); pb (&a, %d); pb (&g, %d); pb (&l, %d); putchar (\'\\n\'); }\n'
+                     % (k, k, n, n, n, n))
+        s.append('}\n')
+        nf += 1
+    s.append('int main (void) {\n')
+    for i in range(nf):
+        s.append('  f%d ();\n' % i)
+    s.append('  return 0;\n}\n')
+    return ''.join(s)
